@@ -180,6 +180,12 @@ func skipString(buf []byte, cursor int64) (int64, error) {
 	}
 }
 
+// SkipValue checks that one JSON value starts at cursor in buf (which ends with the NUL terminator
+// of a private copy) and returns the position behind it.
+func SkipValue(buf []byte, cursor int64) (int64, error) {
+	return skipValue(buf, cursor, 0)
+}
+
 func skipValue(buf []byte, cursor, depth int64) (int64, error) {
 	for {
 		switch buf[cursor] {
